@@ -35,7 +35,7 @@ theorem C11_forward_is_sent (cfg : Cfg) (st : St) (now : Nat) (sp : SendParams) 
     (hf : sp.frag = .none ∨ sp.frag = .raises) : ∃ b, fwdOut cfg st now sp c0 = some b := by
   have hok := (fwdEdit_stages cfg st now c0).1
   unfold fwdOut
-  simp only [hok, if_true, sendBundle, sendRes, hr, hcl]
+  simp only [hok, if_true, sendAsIs, sendRes, hr, hcl]
   rcases hf with h | h <;> simp [h]
 
 /-! ### primary block -/
@@ -46,25 +46,16 @@ def primaryFieldsEq (p q : Primary) : Prop :=
   ∧ p.ts = q.ts ∧ p.lifetime = q.lifetime ∧ p.crcType = q.crcType ∧ p.fragOff = q.fragOff
   ∧ p.totalLen = q.totalLen
 
-/-- Full statement (received bundles: the source is always present). -/
-def PrimaryUnchanged : Prop :=
-  ∀ (cfg : Cfg) (st : St) (now : Nat) (sp : SendParams) (c0 : Ctr) (b : Bundle),
-    c0.srcNone = false →
-    fwdOut cfg st now sp c0 = some b → primaryFieldsEq b.primary c0.primary
-
-/-- **Holds when creation time and lifetime are non-zero and the report-to is present.**
-    Missing part (D11): `_apply_primary` runs on forwarded bundles too — a creation time of 0 is
-    replaced by a fresh timestamp, a lifetime of 0 by one hour, and an absent (CBOR null)
-    report-to by this node's EID when a report is requested. -/
-theorem C11_primary_unchanged_partial (cfg : Cfg) (st : St) (now : Nat) (sp : SendParams) (c0 : Ctr)
-    (b : Bundle) (hs : c0.srcNone = false) (hr : c0.rptNone = false)
-    (hts : c0.primary.ts.time ≠ 0) (hlt : c0.primary.lifetime ≠ 0)
-    (h : fwdOut cfg st now sp c0 = some b) : primaryFieldsEq b.primary c0.primary := by
+/-- **Primary block unchanged.** Whatever was received — creation time 0, lifetime 0, an absent
+    (CBOR null) report-to included — every primary block field of the forwarded bundle equals
+    the received one: `_do_fwd` sends with `as_source=False`, so `_apply_primary` does not run.
+    (Only the CRC value is recomputed.) -/
+theorem C11_primary_unchanged (cfg : Cfg) (st : St) (now : Nat) (sp : SendParams) (c0 : Ctr)
+    (b : Bundle) (h : fwdOut cfg st now sp c0 = some b) :
+    primaryFieldsEq b.primary c0.primary := by
   obtain ⟨_, rfl⟩ := fwdOut_some _ _ _ _ _ _ h
-  obtain ⟨_, hp, _, hrn, hsn⟩ := fwdEdit_meta cfg st now c0
-  have := applyPrimary_unchanged cfg (fwdEdit cfg st now c0).1 now (fwdEdit cfg st now c0).2.1
-    (hsn.trans hs) (hrn.trans hr) (by rw [hp]; exact hts) (by rw [hp]; exact hlt)
-  simp only [Ctr.wire, primaryFieldsEq, this, hp]
+  obtain ⟨_, hp, _, _, _⟩ := fwdEdit_meta cfg st now c0
+  simp only [Ctr.wire, primaryFieldsEq, hp]
   simp
 
 /-- witnesses shared with the harness (harness/props/c11.py `w_d11`, `w_life0`, …) -/
@@ -81,29 +72,11 @@ def wLife0 : Ctr := { primary := wPri 5000 0 0, blocks := [wPay] }
 def wNullRpt : Ctr :=
   { primary := { wPri 5000 0 60000 with flags := 0x10000 }, rptNone := true, blocks := [wPay] }
 
-/-- **The code violates the full statement (D11)**: a received creation time `[0, 7]` leaves
-    as `[now, 0]` (new identity) and the age block is dropped. -/
-theorem C11_primary_unchanged_counterexample : ¬ PrimaryUnchanged := by
-  intro h
-  have hb : ∃ b, fwdOut wCfg {} 9000 wSp wD11 = some b ∧ b.primary.ts = ⟨9000, 0⟩
-      ∧ b.blocks.map (·.typeCode) = [6, 1] := by
-    refine ⟨_, rfl, ?_, ?_⟩ <;> decide
-  obtain ⟨b, hb, hts, _⟩ := hb
-  have := (h wCfg {} 9000 wSp wD11 b rfl hb).2.2.2.2.2.1
-  rw [hts] at this
-  exact absurd this (by decide)
-
-/-- … a lifetime of 0 leaves as 3 600 000 ms … -/
-theorem C11_lifetime_zero_counterexample :
-    ∃ b, fwdOut wCfg {} 9000 wSp wLife0 = some b ∧ b.primary.lifetime = 3600000
-      ∧ wLife0.primary.lifetime = 0 := by
-  refine ⟨_, rfl, ?_, rfl⟩; decide
-
-/-- … and an absent report-to (with a report requested) leaves as this node's EID. -/
-theorem C11_absent_report_to_counterexample :
-    ∃ b, fwdOut wCfg {} 9000 wSp wNullRpt = some b ∧ b.primary.rpt = wCfg.nodeId
-      ∧ wNullRpt.rptNone = true := by
-  refine ⟨_, rfl, ?_, rfl⟩; decide
+-- the former D11 witnesses: creation time [0, 7], lifetime 0 and the absent report-to stay as received
+example : ∃ b, fwdOut wCfg {} 9000 wSp wD11 = some b ∧ b.primary.ts = ⟨0, 7⟩
+    ∧ b.blocks.map (·.typeCode) = [6, 1] := ⟨_, rfl, by decide, by decide⟩
+example : ∃ b, fwdOut wCfg {} 9000 wSp wLife0 = some b ∧ b.primary.lifetime = 0 := ⟨_, rfl, by decide⟩
+example : ∃ b, fwdOut wCfg {} 9000 wSp wNullRpt = some b ∧ b.primary.rpt = .dtnNone := ⟨_, rfl, by decide⟩
 
 /-! ### blocks that are neither previous-node nor age blocks -/
 
@@ -116,7 +89,7 @@ theorem C11_other_blocks_kept (cfg : Cfg) (st : St) (now : Nat) (sp : SendParams
   obtain ⟨_, rfl⟩ := fwdOut_some _ _ _ _ _ _ h
   obtain ⟨S⟩ := (fwdEdit_stages cfg st now c0).2
   have := S.keep hnd x hx h6 h7
-  simp only [Ctr.wire, applyPrimary_blocks]
+  simp only [Ctr.wire]
   exact finalBlocks_of_mem _ _ _ this
 
 /-- **Payload unchanged.** The payload block leaves with the octets it arrived with (whatever
@@ -183,7 +156,7 @@ theorem C11_one_prev_node (cfg : Cfg) (st : St) (now : Nat) (sp : SendParams) (c
     ∧ ∀ y ∈ b.blocks, y.typeCode = typePrevNode → y.btsd = some (encPrevNode cfg.nodeId) := by
   obtain ⟨_, rfl⟩ := fwdOut_some _ _ _ _ _ _ h
   obtain ⟨S⟩ := (fwdEdit_stages cfg st now c0).2
-  simp only [Ctr.wire, applyPrimary_blocks]
+  simp only [Ctr.wire]
   have hall : ∀ x ∈ (fwdEdit cfg st now c0).2.1.blocks, x.c.typeCode = typePrevNode →
       x = newBlk typePrevNode S.n (encPrevNode cfg.nodeId) := by
     intro x hx ht
@@ -217,8 +190,8 @@ example : ∃ b, fwdOut wCfg {} 9000 wSp wDupPrev = some b
 /-! ### bundle age -/
 
 /-- **At most one age block leaves**; when the creation time is not 0 there is exactly one and it
-    carries `max(0, now - creation time)` (`Nat` subtraction). With creation time 0 none leaves
-    (D11: the received age block is dropped together with the rewritten timestamp). -/
+    carries `max(0, now - creation time)` (`Nat` subtraction). With creation time 0 none leaves:
+    the received age blocks are removed and no new one is added (see the note in the report). -/
 theorem C11_age_at_most_one (cfg : Cfg) (st : St) (now : Nat) (sp : SendParams) (c0 : Ctr)
     (b : Bundle) (hnd : c0.nums.Nodup) (h : fwdOut cfg st now sp c0 = some b) :
     (b.blocks.filter (isType typeAge)).length = (if c0.primary.ts.time = 0 then 0 else 1)
@@ -226,7 +199,7 @@ theorem C11_age_at_most_one (cfg : Cfg) (st : St) (now : Nat) (sp : SendParams) 
         y.btsd = some (encBundleAge (now - c0.primary.ts.time)) := by
   obtain ⟨_, rfl⟩ := fwdOut_some _ _ _ _ _ _ h
   obtain ⟨S⟩ := (fwdEdit_stages cfg st now c0).2
-  simp only [Ctr.wire, applyPrimary_blocks]
+  simp only [Ctr.wire]
   have hall : ∀ x ∈ (fwdEdit cfg st now c0).2.1.blocks, x.c.typeCode = typeAge →
       c0.primary.ts.time ≠ 0 ∧ ∃ m, x = newBlk typeAge m (encAge now c0.primary.ts.time) := by
     intro x hx ht
@@ -285,20 +258,19 @@ theorem C11_blocknums_unique_payload_last (cfg : Cfg) (st : St) (now : Nat) (sp 
         ∃ y, b.blocks.getLast? = some y ∧ y.typeCode = typePayload ∧ y.blockNum = 1 := by
   obtain ⟨_, rfl⟩ := fwdOut_some _ _ _ _ _ _ h
   obtain ⟨S⟩ := (fwdEdit_stages cfg st now c0).2
-  simp only [Ctr.wire, applyPrimary_blocks]
+  simp only [Ctr.wire]
   constructor
   · rw [finalBlocks_nums]; exact S.out_nodup hnd
   · intro p hl ht hn
     have := S.last hnd p hl (by rw [ht]; decide) (by rw [ht]; decide)
     obtain ⟨y, hy, h1, h2, _⟩ := finalBlocks_getLast _ (takeCrc
-      (applyPrimary cfg (fwdEdit cfg st now c0).1 now (fwdEdit cfg st now c0).2.1).2.primary.crcType sp.crcs).2 _ this
+      (fwdEdit cfg st now c0).2.1.primary.crcType sp.crcs).2 _ this
     refine ⟨y, hy, ?_, ?_⟩
     · rw [h1, (bumpHop_keeps p).1, ht]
     · rw [h2, (bumpHop_keeps p).2.1]; exact hn
 
 -- the D10 witness meets the hypotheses of the theorems above
-example : wD10.nums.Nodup ∧ wD10.primary.ts.time ≠ 0 ∧ wD10.primary.lifetime ≠ 0
-    ∧ wD10.blocks.getLast? = some wPay := by decide
+example : wD10.nums.Nodup ∧ wD10.blocks.getLast? = some wPay := by decide
 
 example : ∃ b, fwdOut wCfg {} 9000 wSp wD10 = some b ∧ primaryFieldsEq b.primary wD10.primary :=
   ⟨_, rfl, by unfold primaryFieldsEq; decide⟩
